@@ -162,7 +162,19 @@ func (r *Report) Finish() int {
 					}
 					byCallee[callee] = ok && v.Status == "discharged" && v.Ms < 3000
 				}
+				allPre := true
+				for _, ok := range byCallee {
+					allPre = allPre && ok
+				}
+				if allPre {
+					// every precondition at every call site discharges now (or there is none): a call
+					// added later to any callee with a precondition must discharge it as well
+					names = append(names, pre+"pre@*")
+				}
 				for _, callee := range sortedKeys(byCallee) {
+					if allPre {
+						break
+					}
 					if byCallee[callee] {
 						names = append(names, pre+callee+"#*")
 					} else {
@@ -216,7 +228,7 @@ func (r *Report) Finish() int {
 				// discharges now (a kind without any obligation is claimed too: a later edit that
 				// introduces one must discharge it)
 				pre := shortOfKey(fr.Key) + "/"
-				for _, kind := range []string{"safety.index", "safety.slice", "safety.assert", "safety.panic", "safety.mapnil", "safety.div", "safety.nil", "safety.nilsignal", "safety.termination"} {
+				for _, kind := range []string{"safety.index", "safety.slice", "safety.assert", "safety.panic", "safety.mapnil", "safety.div", "safety.nil", "safety.nilsignal", "safety.nilopt", "safety.termination"} {
 					clean := true
 					for _, v := range r.Verdicts {
 						if v.Ob.Kind == kind && strings.HasPrefix(v.Ob.Name, pre) && (v.Status != "discharged" || v.Ms >= 3000) {
